@@ -134,6 +134,11 @@ def check_iwv(idx, vmr):
     if not ex.close(got, ref, iwv_tol(ref, n)):
         return ("integrate_water_vapor/hydrostatic-value", float(ref), got,
                 "")
+    got = ex.call(atm().integrate_water_vapor, np.array(vmr),
+                  p.astype("int64"))
+    if not ex.close(got, ref, iwv_tol(ref, n)):
+        return ("integrate_water_vapor/differs-for-integer-pressure",
+                float(ref), got, "p given as an int64 array")
     rho = [Fraction(v) * Fraction(pi) / (Fraction(RV) * Fraction(ti))
            for v, pi, ti in zip(vmr, p.tolist(), t.tolist())]
     ref = ex.trapezoid(ex.fractions(z.tolist()), rho)
@@ -269,6 +274,15 @@ def check_p2h(idx, temps):
     if not (np.all(np.isfinite(z)) and np.all(np.diff(z) > 0)):
         return ("pressure2height/not-strictly-increasing", "increasing", z,
                 "")
+    # the same column given as integer arrays (whole pascals / kelvins are
+    # legitimate inputs): the heights must not depend on the dtype
+    zi = ex.call(atm().pressure2height, p.astype("int64"),
+                 None if t is None else t.astype("int64"))
+    if np.shape(zi) != np.shape(z) or not np.all(
+            np.abs(np.asarray(zi, dtype=float) - z)
+            <= 1e-9 * max(abs(z[-1]), 1.0)):
+        return ("pressure2height/differs-for-integer-arrays", z, zi,
+                "p and T given as int64 arrays")
     # the same column stored top-down (pressure increasing along the array):
     # starts at 0 at the top, heights decrease with increasing pressure, and
     # every layer is as thick as in the bottom-up call (the hydrostatic
